@@ -4,7 +4,7 @@ CONSTANTS
   Wallets = {"w1", "w2"}
   MembersOf <- MembersOf3b
   Threshold <- Threshold3b
-  Windows = {1, 2}
+  Windows = {1}
   LeaderCandidates <- Leader3b
   HeartbeatCandidates <- HbFirst
   Proposable = {"Heartbeat", "Redemption"}
